@@ -61,7 +61,7 @@ def checkRecovery (i : In) : List Act :=
   | none => []
   | some master =>
   if !i.updateHostsOk then [] else
-  if !i.masterRegistered then [.panic "cluster.Get(master) == nil"] else
+  if !i.masterRegistered then [] else                          -- logged, nothing done (nil dereference before fix: 6fbf603)
   match i.mgtid with
   | none => []
   | some mg =>
@@ -73,7 +73,7 @@ def checkRecovery (i : In) : List Act :=
     if i.now - timer < stuckWaitTime then t1
     else t1 ++ [.writeResetup, .cleanStuckTimer]
   else match st with
-    | .notReplica => t1 ++ [.panic "sstatus.GetExecutedGtidSet() on nil"]   -- stuck, still recorded master, not a replica
+    | .notReplica => t1                                        -- stuck, still recorded master, not a replica: waits (nil dereference before fix: ccc87e5)
     | .err => t1
     | .replica state executed =>
       if permanentlyLost state executed mg then t1 ++ [.writeResetup]
